@@ -296,16 +296,33 @@ impl TypeAddress {
         }
 
         // should be a valid typescript identifier
-        let acc = format!(
-            "{}__{}",
-            to_valid_ts_identifier(&Self::min_file_path_that_differs(
-                &self.file,
-                &has_same_name
-            )),
-            self.name
-        );
+        let own_prefix = to_valid_ts_identifier(&Self::min_file_path_that_differs(
+            &self.file,
+            &has_same_name,
+        ));
+        // two different paths can be spelled alike once their punctuation is replaced (`a-b.ts` / `a_b.ts`,
+        // `a/b.ts` / `a_b.ts`): those get their rank among the files that collide appended
+        let mut alike: Vec<&BffFileName> = vec![&self.file];
+        for other in &has_same_name {
+            let mut rest: Vec<TypeAddress> = has_same_name
+                .iter()
+                .filter(|it| *it != other)
+                .cloned()
+                .collect();
+            rest.push(self.clone());
+            let other_prefix =
+                to_valid_ts_identifier(&Self::min_file_path_that_differs(&other.file, &rest));
+            if other_prefix == own_prefix && !alike.contains(&&other.file) {
+                alike.push(&other.file);
+            }
+        }
+        if alike.len() > 1 {
+            alike.sort();
+            let rank = alike.iter().position(|it| *it == &self.file).unwrap_or(0);
+            return format!("{}_{}__{}", own_prefix, rank, self.name);
+        }
 
-        acc
+        format!("{}__{}", own_prefix, self.name)
     }
 }
 
